@@ -1850,7 +1850,10 @@ class NodeRequire:
             for name in moduleEnv.getLocalSymbols():
                 if name.startswith("_"):
                     continue  # skip private module symbols
-                environment.put(name, moduleEnv.get(name))
+                val = moduleEnv.get(name)
+                if val.isObject() and val.isModule:
+                    continue  # do not re-export modules, as below
+                environment.put(name, val)
         elif self.symbols:
             for name in moduleEnv.getLocalSymbols():
                 if name.startswith("_"):
